@@ -3,7 +3,7 @@
    moves its LIB to the tip's ancestor at the tip's declared LIB number when that ancestor has been received
    and lies above the current LIB; it never forgets a block, whereas the model purges under the LIB. *)
 From BV Require Import Base.Prelude Model.Block Model.ForkDB Model.Forkable Model.ForkableLookups
-  Spec.Consumer Spec.Universe Spec.ForkChoice Spec.C01_Spec Spec.C01_Moving_Spec Spec.C03_Spec
+  Spec.Consumer Spec.Universe Spec.ForkChoice Spec.C01_Spec Spec.C01_Moving_Spec Spec.C01_Roots_Spec Spec.C03_Spec
   Check.Fk_Check Check.Fk_Props_Check.
 Local Open Scope N_scope.
 
@@ -17,6 +17,8 @@ Local Open Scope N_scope.
    - c03_follows: the same on blocks rather than ids, plus: the consumer stack is the parent path from the
      tip down to the starting LIB;
    - c03_noise: a block that leaves the reference's tip and LIB unchanged delivers nothing;
+   - c03_retention_statement: the run is the same for every keptFinalBlocks value, although the two runs purge
+     different blocks;
    - c03_noise_deletion: a block the reference ignores completely can be deleted from the history: exactly
      its (empty) entry disappears from the run. *)
 Definition c03_moving_lib_statement : Prop :=
@@ -28,6 +30,21 @@ Definition c03_moving_lib_statement : Prop :=
     c03_statement cfg m h /\
     c03_follows cfg (ri r0) (fc_init m) [] None h t /\
     c03_noise cfg (fc_init m) h t /\
+    c03_retention_statement cfg m h /\
+    (forall h1 b h2, h = h1 ++ b :: h2 -> c03_noise_deletion cfg m h1 b h2).
+
+(* the same for the larger class moving_scope2_b of Spec/C01_Roots_Spec.v: blocks with an EMPTY parent id
+   (roots) allowed, fed any number of times *)
+Definition c03_moving_lib_roots_statement : Prop :=
+  forall cfg r0 m h,
+    rooted_mode r0 m -> c_fail_at cfg = None ->
+    f_new (c_filter cfg) = true -> f_undo (c_filter cfg) = true ->
+    moving_scope2_b r0 h = true ->
+    let t := fk_run cfg (fs_init m) h in
+    c03_statement cfg m h /\
+    c03_follows cfg (ri r0) (fc_init m) [] None h t /\
+    c03_noise cfg (fc_init m) h t /\
+    c03_retention_statement cfg m h /\
     (forall h1 b h2, h = h1 ++ b :: h2 -> c03_noise_deletion cfg m h1 b h2).
 
 (* the reference means what the property says about the LIB: when the tip moves to b (b new, not below the
